@@ -18,7 +18,7 @@ REG = {
         dict(name='c01::p13b4::negate_eq_zero', tier='quick', t=1200),
         dict(name='c01::p13b4::conversions', tier='quick', t=1200),
         dict(name='c01::p13b4::batch_normalization_0_1', tier='quick', t=1200),
-        dict(name='c01::p13b4::batch_normalization_2', tier='quick', t=1800),
+        dict(name='c01::p13b4::batch_normalization_2', tier='thorough', t=3600),
         dict(name='c01::p13b4::batch_normalization_3', tier='thorough', t=3600),
         dict(name='c01::p13b2::double', tier='thorough', t=1800),
         dict(name='c01::p13b2::add_assign', tier='thorough', t=2400),
@@ -124,7 +124,7 @@ def parse(out, rc):
     elif 'error' in out.lower() and 'Compiling' in out or 'error[' in out or 'error:' in out:
         r['status'] = 'BUILD-ERROR'
         r['detail'] = out[-1500:]
-    if 'memory' in out.lower() and 'out of' in out.lower():
+    if 'out of memory' in out.lower() or 'bad_alloc' in out or 'memory exhausted' in out.lower():
         r['status'] = 'OOM'
     if r['status'] == 'SUCCESS' and r['covers'] is not None and r['covers_sat'] != r['covers']:
         r['status'] = 'VACUOUS'
